@@ -147,6 +147,44 @@ def to_number(value: JSValue) -> Union[int, float]:
     return float("nan")
 
 
+def js_pow(base: Union[int, float], exponent: Union[int, float]) -> Union[int, float]:
+    """ECMAScript Number::exponentiate (the ** operator and Math.pow).
+
+    Python's ** and math.pow raise for 0 ** -1, negative ** fraction and
+    overflow, return complex numbers or exact big integers, and follow C99
+    (not ECMAScript) for 1 ** NaN and (-1) ** Infinity.
+    """
+    try:
+        b = float(base)
+    except OverflowError:
+        b = math.inf if base > 0 else -math.inf
+    try:
+        e = float(exponent)
+    except OverflowError:
+        e = math.inf if exponent > 0 else -math.inf
+    if e != e:
+        return math.nan
+    if e == 0:
+        return 1
+    if b != b:
+        return math.nan
+    if abs(b) == 1 and math.isinf(e):
+        return math.nan
+    odd_integer = (not math.isinf(e)) and e.is_integer() and int(e) % 2 == 1
+    try:
+        result = math.pow(b, e)
+    except ValueError:
+        if b == 0:
+            # (+-0) ** negative
+            return -math.inf if math.copysign(1, b) < 0 and odd_integer else math.inf
+        return math.nan  # negative base, fractional exponent
+    except OverflowError:
+        return -math.inf if b < 0 and odd_integer else math.inf
+    if result.is_integer() and abs(result) < 2**53:
+        return int(result)
+    return result
+
+
 def to_string(value: JSValue) -> str:
     """Convert a JavaScript value to string."""
     if value is UNDEFINED:
